@@ -292,6 +292,21 @@ def install(I):
             outs.append((NONE, st.fork()))
         return outs
 
+    @model("::to_ascii_uppercase", "::to_ascii_lowercase")
+    def ascii_case(I, st, a, ctx):
+        p = a[0]
+        v = I.read_loc(st, (p[1], p[2], p[3], None)) if is_ptr(p) else p
+        c = int_const(v) if is_int(v) else None
+        if c is None:
+            ti = ty_info(ctx.get("dest_ty") or "") or (32, False)
+            return [(top_int(ti[0], ti[1]), st)]
+        up = ctx["term"]["callee"].endswith("uppercase")
+        if up and 0x61 <= c <= 0x7A:
+            c -= 32
+        if (not up) and 0x41 <= c <= 0x5A:
+            c += 32
+        return [(const(c, v[1], v[2]), st)]
+
     @model("cmp::min", "cmp::Ord::min", "cmp::max", "cmp::Ord::max")
     def minmax(I, st, a, ctx):
         x, y = a[0], a[1]
@@ -302,6 +317,23 @@ def install(I):
         return [(mk_int(x[1], x[2], None, max(x[4], y[4]), max(x[5], y[5])), st)]
 
     # ---------------- ranges / indexing
+    @model("Range::contains", "RangeInclusive::contains", "RangeBounds::contains")
+    def rcontains(I, st, a, ctx):
+        rp, xp = a[0], a[1]
+        r = I.read_loc(st, (rp[1], rp[2], rp[3], None)) if is_ptr(rp) else rp
+        x = I.read_loc(st, (xp[1], xp[2], xp[3], None)) if is_ptr(xp) else xp
+        if not (is_agg(r) and is_int(x) and len(r[4]) >= 2 and is_int(r[4][0]) and is_int(r[4][1])):
+            return [(top_int(1), st)]
+        lo, hi = r[4][0], r[4][1]
+        incl = (r[2] or "").split("::")[-1] == "RangeInclusive"
+        c1 = int_const(I.cmp("Le", lo, x, st))
+        c2 = int_const(I.cmp("Le" if incl else "Lt", x, hi, st))
+        if c1 == 0 or c2 == 0:
+            return [(const(0, 1), st)]
+        if c1 == 1 and c2 == 1:
+            return [(const(1, 1), st)]
+        return [(top_int(1), st)]
+
     @model("RangeInclusive::new", "RangeInclusive::<Idx>::new")
     def rinew(I, st, a, ctx):
         return [(agg("struct", "core::ops::RangeInclusive", 0, [a[0], a[1], const(0, 1)]), st)]
